@@ -21,7 +21,7 @@ RULE = (
     "A fixed family of small configurations (1-3 chains; sequential and 2-process; single stage, warm-up + main, "
     "windowed warm-up with metric adapter, warm-up + main without adapters given as None or as an empty collection; in-memory, temporary and user-directory memmap; generic and HMC "
     "samplers) is crossed with EVERY interrupt point: KeyboardInterrupt raised at every (chain, iteration) from the "
-    "integration transition, from the momentum transition, from each trace function, from the k-th trace call of EVERY worker process at once (as a "
+    "integration transition, from the momentum transition, from each trace function, as a real SIGINT delivered to the parent process of a multi-process run while a worker is inside a chosen iteration, from the k-th trace call of EVERY worker process at once (as a "
     "terminal Ctrl-C reaches all workers; runs with more chains than processes), and (sequential runs) at every "
     "call index of the density and gradient functions counted in the fault-free run - enumerated exhaustively per "
     "configuration (quick: 19 of the 57 configurations, covering every adapter / process / storage combination). Hypothesis adds generated configurations with generated "
@@ -82,6 +82,10 @@ def enumerated(tier):
         if cfg["n_process"] > 1:
             for k in range(1, total + 1):
                 yield {"cfg": cfg, "interrupt": ["trace-per-process", 0, k]}
+            # a real SIGINT delivered to the PARENT process while a worker is inside iteration `it` of chain `cid`
+            for cid in range(cfg["n_chain"]):
+                for it in range(0, total, 2):
+                    yield {"cfg": cfg, "interrupt": ["parent-signal", "integration", cid, it]}
         if cfg["n_process"] == 1 and cfg["n_chain"] <= 2:
             for which in ("neg_log_dens", "grad_neg_log_dens"):
                 for k in range(1, 40, 1 if tier == "thorough" else 3):
@@ -203,7 +207,8 @@ def run_case(case) -> Result:
         from vf.props.c13 import expected_rows
 
         int_it = None
-        loose = intr[0] in ("user", "trace-per-process")   # exact interrupted iteration(s) not known to the harness
+        # exact interrupted iteration(s) not known to the harness (parent-signal: no worker iteration is interrupted at all)
+        loose = intr[0] in ("user", "trace-per-process", "parent-signal")
         if intr[0] == "trace":
             int_it = (intr[2], intr[3])
         elif intr[0] == "transition":
@@ -253,6 +258,22 @@ def run_case(case) -> Result:
                     if not check_rows(f"statistic {tk}.{sk}", st_arrs[sk][c], sb_arrs[sk][c], default, st_its, c):
                         return res
         # ---- final states
+        # the last stage in which any transition was entered (records of transitions carry the number of iterations done
+        # before, so iteration number = it + 1); chains that COMPLETED an iteration of that stage must have a final state
+        entered = [(r["cid"], r["it"] + 1) for r in recs if r["t"] != "rec"] + list(executed)
+        if fired and intr[0] == "transition":
+            entered.append((intr[2], intr[3] + 1))      # raised before the transition wrote its record
+        elif fired and intr[0] == "trace":
+            entered.append((intr[2], intr[3]))
+        started = [any(lo <= it <= hi for (_, it) in entered) for lo, hi in bounds]
+        if any(started):
+            lo, hi = bounds[max(i for i, f in enumerate(started) if f)]
+            ran = {c for (c, it) in executed if lo <= it <= hi}
+            missing = sorted(ran - {int(s_.cid) for s_ in fs})
+            if missing:
+                res.fail("C15:final-state-missing", f"{tag}: chains {missing} completed iterations in the last stage that "
+                         f"ran but no final state is returned for them ({len(fs)} final states returned)")
+                return res
         by = {(r["cid"], r["it"]): r for r in recs if r["t"] == "rec"}
         for s in fs:
             c, it = int(s.cid), int(s.it)
